@@ -3,6 +3,10 @@ import itertools, json, os
 from vp import val, coqrun, rustrun
 from vp.val import cN, cbool, clist, cpair
 from gen.common import *
+from gen import c16 as _c16
+
+_P16 = _c16.Prop()
+SLOT_CLASSES = ('hard_reset_', 'disable_', 'disable_enable_', 'delete_', 'dynamic_lifecycle', 'disconnect_race_')
 
 A, Pv = 0, 1   # roles
 
@@ -64,23 +68,29 @@ class Prop:
     required_theorems = ['established_only_via_open_exchange', 'unexpected_message_fsm_error',
                          'down_inputs_free_slot', 'at_most_one_confirmed',
                          'established_never_loses', 'collision_survivor']
-    correspondence_name = 'Model/Fsm.v peer_step vs daemon/src/fsm.rs PeerFsm::process (harness/daemon/fsm_hx.rs)'
+    correspondence_name = ('Model/Fsm.v peer_step vs daemon/src/fsm.rs PeerFsm::process (harness/daemon/fsm_hx.rs); slot cases: Model/Accept.v vs the real '
+                           'connection tasks, ConnArbiter and API teardown paths (harness/daemon/event_accept_hx.rs)')
     rule = ('cases = (local id/AS/hold/capabilities/send-max, expected AS, sequence of (role,input)); '
             'quick: every sequence of length<=2 over a 32-letter alphabet appended to 14 state-reaching prefixes, plus seeded random sequences of length<=40; '
             'a case is non-trivial when some connection reaches OpenConfirm; distinct = distinct (config, trajectory of (active,passive) state pairs and output kinds)')
     exhaustive = {'quick': False, 'thorough': False}
     trusted_base = ['messages are abstracted to what fsm.rs inspects (OPEN: AS, id, hold time, capabilities; NOTIFICATION: code/subcode); '
                     'the PeerCodec inside SessionNegotiated is observed only through the capability lists it was built from (its behaviour is property C16)',
-                    'ConnArbiter delivery of the Cease to the losing connection (event/mod.rs) is glue outside the model']
+                    'ConnArbiter delivery of the Cease to the losing connection (event/mod.rs) is glue outside the model',
+                    'slot cases: the freeing of a slot by the daemon glue (connection task end, apply_disconnect, ConnArbiter, hard ResetPeer / DisablePeer / DeletePeer) is '
+                    'compared with Model/Accept.v (C16\'s admission model: a direction without a connection admits a new one) and judged by the oracle on the real PeerFsm '
+                    'state of each direction and on the OPEN a new attempt receives; connections there stay in OpenSent (the harness peer sends no OPEN)']
     assumptions = ['inputs reach the FSM after parsing/validation (HoldTime 0 or >=3), as in PeerSession::rx_msg',
                    'Connected is offered to PeerFsm only through PeerFsm::process (never to an existing Connection)']
 
     # ---- case rendering
     def case_to_val(self, c):
+        if c.get('kind') == 'slot': return _P16.case_to_val(c['acc'])
         return [c['lid'], c['lasn'], caps_to_val(c['lcap']), c['lhold'], c['exp'],
                 [list(p) for p in c['smax']], [[r, input_to_val(i)] for r, i in c['ins']]]
 
-    def case_to_coq(self, c):
+    def case_to_coq(self, c, order=None):
+        if c.get('kind') == 'slot': return _P16.case_to_coq(c['acc'], order)
         ins = clist(['(%s, %s)' % ('RActive' if r == A else 'RPassive', input_to_coq(i)) for r, i in c['ins']])
         return 'run_case %s %s %s %s %s %s %s' % (cN(c['lid']), cN(c['lasn']), caps_to_coq(c['lcap']), cN(c['lhold']),
                                                  cN(c['exp']), clist([cpair(cN(a), cN(b)) for a, b in c['smax']]), ins)
@@ -89,6 +99,7 @@ class Prop:
         return json.loads(json.dumps(c))
 
     def case_from_json(self, j):
+        if j.get('kind') == 'slot': return {'kind': 'slot', 'acc': _P16.case_from_json(j['acc'])}
         def tup(x):
             return tuple(tup(y) for y in x) if isinstance(x, list) else x
         c = dict(j)
@@ -202,22 +213,52 @@ class Prop:
                 else: ins.append(rng.choice(al))
             cfg['ins'] = ins
             cases.append(cfg)
+        # the glue that frees a slot in the running daemon (connection tasks, ConnArbiter, apply_disconnect, the API's
+        # teardown paths): enumerated histories of C16's admission harness, judged for "the slot is Idle again and a new
+        # attempt gets its OPEN"
+        cases += [{'kind': 'slot', 'acc': c} for c in _P16.enum_acc() if (c.get('cls') or '').startswith(SLOT_CLASSES)]
         return cases
 
     # ---- running
     def run_impl(self, cases, tier):
-        return rustrun.daemon_test('C07', 'fsm::verif_hx::verif_fsm_cases', [self.case_to_val(c) for c in cases])
+        a = [k for k, c in enumerate(cases) if c.get('kind') != 'slot']
+        b = [k for k, c in enumerate(cases) if c.get('kind') == 'slot']
+        out = [None] * len(cases)
+        self._orders = {}
+        if a:
+            r, err = rustrun.daemon_test('C07', 'fsm::verif_hx::verif_fsm_cases', [self.case_to_val(cases[k]) for k in a])
+            if r is None: return None, err
+            for k, o in zip(a, r): out[k] = o
+        if b:
+            # the daemon's glue around the FSM: real connection tasks, the ConnArbiter and apply_disconnect (C16's harness)
+            r, err = rustrun.daemon_test('C07slot', 'event::verif_hx::accept_hx::verif_accept_cases', [self.case_to_val(cases[k]) for k in b])
+            if r is None: return None, err
+            for k, o in zip(b, r):
+                out[k] = o
+                if o != [-1] and o and o[0] and o[0][0] == -7: self._orders[k] = o[0][1:]
+        return out, ''
 
     def run_model(self, cases, tier):
-        pre = 'From RB Require Import Base.Val Model.Caps Model.Fsm.\nOpen Scope N_scope.'
-        return coqrun.eval_terms('C07', pre, [self.case_to_coq(c) for c in cases])
+        pre = ('From RB Require Import Base.Val Model.Caps Model.Fsm Model.Negotiate Model.Accept.\nOpen Scope N_scope.')
+        orders = getattr(self, '_orders', {})
+        # the FSM cases use Model.Fsm.run_case, the slot cases Model.Accept.run_case: qualified names
+        terms = []
+        for k, c in enumerate(cases):
+            if c.get('kind') == 'slot': terms.append(self.case_to_coq(c, orders.get(k)))
+            else: terms.append('Fsm.' + self.case_to_coq(c))
+        return coqrun.eval_terms('C07', pre, terms)
 
     def canon(self, case, obs):
+        if case.get('kind') == 'slot': return _c16.canon_acc(obs)
         return obs
 
     # ---- Spec oracle: judges the implementation's observations against the
     # property text (python mirror of Spec/FsmSpec.v)
     def oracle(self, c, obs):
+        if c.get('kind') == 'slot':
+            # "a ... disconnect or admin shutdown always returns that connection to Idle and frees its slot for a new attempt":
+            # the FSM slot of every direction without a connection is Idle and a new attempt is sent an OPEN (judged by C16's oracle)
+            return _P16.oracle_acc(c['acc'], obs)
         if obs == [-1]:
             return 'panic in PeerFsm::process'
         st = [0, 0]
@@ -280,6 +321,8 @@ class Prop:
         return False
 
     def nontrivial_key(self, c, obs):
+        if c.get('kind') == 'slot':
+            return ('slot', json.dumps(c['acc']['ops'])) if obs != [-1] and any(o[0] for o in obs[2:] if isinstance(o, list) and o) else None
         if obs == [-1]:
             return ('panic',)
         traj = tuple((o[1], o[2], tuple(x[2][0] if x[0] == 0 else -x[0] for x in o[0])) for o in obs)
@@ -288,6 +331,7 @@ class Prop:
         return None
 
     def classify(self, c, obs):
+        if c.get('kind') == 'slot': return ['kind_slot', 'slot_' + (c['acc'].get('cls') or '?')]
         tags = ['len_%s' % ('0-3' if len(c['ins']) <= 3 else '4-8' if len(c['ins']) <= 8 else '9+')]
         if obs != [-1]:
             if any(o[1] == 5 or o[2] == 5 for o in obs): tags.append('reaches_established')
